@@ -233,10 +233,11 @@ theorem step_wforce_local {s s' : St} {pid : Nat} (hs : step s (.wforce pid) = s
 
 /-- If `checkRun` passes, every adapter line belongs to a known goroutine and every goroutine's part of the
     expanded output conforms to its items: in program order, every must-line present, no line more often
-    than logged, nothing that was disabled, tracer lines with exactly their entries. -/
+    than logged, nothing that was disabled, tracer lines with exactly their entries and never merged. -/
 theorem checkRun_sound (np : Nat) (exps : Nat → List Item) (outs : List OutW)
     (h : checkRun np exps outs = .pass) :
-    (∀ o ∈ outs, o.gid < np) ∧ ∀ g, g < np → Conforms (exps g) (expandOut g outs) :=
+    (∀ o ∈ outs, o.gid < np) ∧ (∀ o ∈ outs, o.entries.isSome → o.dups = 0) ∧
+      ∀ g, g < np → Conforms (exps g) (expandOut g outs) :=
   PB.Log.checkRun_sound np exps outs h
 
 /-- Conversely the per-goroutine check accepts every conforming output (items pairwise distinct). -/
